@@ -107,7 +107,8 @@ def run(tier, seed):
     for tag, cfgs in fams:
         def make_real(cfg):
             return R.Real(cfg, form=['col', 'dict'][(cfg['id'] + seed) % 2])
-        step = 4 if tier == 'quick' else 1
+        # (near-misses of the T = 4 placements: a sixth of the configurations per seed -- the relaxed enumeration of all of them needs tens of GB)
+        step = 4 if tier == 'quick' else (6 if tag == 'placement_T4' else 1)
         neg = [c for k, c in enumerate(cfgs) if k % step == (seed % step)]
         pos = common.spec_to_code(chk, cfgs, make_real, relax=RELAX, neg_cfgs=neg, tag=tag)
         common.code_to_spec(chk, cfgs, make_real, tag=tag)
